@@ -117,10 +117,7 @@ func (s *Service) Handle(ctx context.Context, request []byte) ([]byte, error) {
 // Process the reqeust and returns the response.
 func (s *Service) Process(ctx context.Context, request []byte) ([]byte, error) {
 	serviceContext := GetServiceContext(ctx)
-	name, args, err := s.Codec.Decode(request, serviceContext)
-	if err != nil {
-		return nil, err
-	}
+	var err error
 	var result interface{}
 	func() {
 		defer func() {
@@ -128,6 +125,11 @@ func (s *Service) Process(ctx context.Context, request []byte) ([]byte, error) {
 				err = NewPanicError(p)
 			}
 		}()
+		name, args, e := s.Codec.Decode(request, serviceContext)
+		if e != nil {
+			err = e
+			return
+		}
 		results, e := s.invokeManager.Handler().(NextInvokeHandler)(ctx, name, args)
 		if e != nil {
 			err = e
